@@ -1045,7 +1045,7 @@ def main(argv):
 
         # XPRINT: the model's exact decimal of a double: (a) its rational value IS the double (Python Fraction),
         # (b) a JSON float token, (c) the real serde_json reads it back as that very double
-        n_xp = 200 if quick else 3000
+        n_xp = 200 if quick else 2000
         xbits = list(BOUNDARY_BITS)
         while len(xbits) < n_xp:
             xbits.append(gen_bits(rng, False))
@@ -1129,7 +1129,7 @@ def main(argv):
 
         # XRT: documents printed by the model with the exact printer: the model's own parser reads the document back
         # (what C06_json_text_roundtrip_exact proves) and so does the real serde_json (as the built Value)
-        n_xrt = 60 if quick else 1500
+        n_xrt = 60 if quick else 600
         xdocs = []
         while len(xdocs) < n_xrt:
             if rng.chance(1, 2):
@@ -1194,8 +1194,22 @@ def main(argv):
                 continue            # not passable as a process argument
             xe_kinds[kind] = xe_kinds.get(kind, 0) + 1
             xe_jobs.append((kind, text, key, prog))
+        def xe_one(j):
+            rc, out, err = run_cli(cli, ["--input=" + j[1], j[3]])
+            # second leg (C06_cli_text_echo_fixed_point): the bytes written, fed back, are written again unchanged
+            out2 = run_cli(cli, [ECHO], stdin_text=out)[1] if rc == 0 else None
+            return rc, out, err, out2
+
         with ThreadPoolExecutor(max_workers=8) as ex:
-            xe_real = list(ex.map(lambda j: run_cli(cli, ["--input=" + j[1], j[3]]), xe_jobs))
+            xe_real4 = list(ex.map(xe_one, xe_jobs))
+        xe_real = [r[:3] for r in xe_real4]
+        for j, r in zip(xe_jobs, xe_real4):
+            if r[0] == 0 and r[3] != r[1]:
+                res.violation("the output of the echo program, fed back as input, is not reproduced byte for byte",
+                              {"kind": "cli-echo-fixed-point", "input_json": j[1], "program": j[3], "first_output": r[1][:2000],
+                               "second_output": (r[3] or "")[:2000],
+                               "rerun": "blots --input=<input_json> '%s' | blots '%s'" % (j[3], ECHO)})
+                break
         try:
             xe_model = c.coq_eval_batch(XREQS, "", ['c06_xecho_line (hx "%s") "%s" "x"' % (hx(j[1]), j[2]) for j in xe_jobs],
                                         "c06xecho", shard=10)
@@ -1215,7 +1229,8 @@ def main(argv):
                            "on %d of %d inputs" % (len(xe_mism), len(xe_jobs)),
                            "first (%s): blots --input=%r %r -> %s %s ; model=%s" % (kind, text[:300], prog, real[:300], err[:100], (m or "")[:300]))
         res.streams["XECHO"] = {"inputs": len(xe_jobs), "mismatches": len(xe_mism), "kinds": xe_kinds,
-                                "failing_on_both_sides": xe_err}
+                                "failing_on_both_sides": xe_err,
+                                "second_leg_byte_identical": sum(1 for r in xe_real4 if r[0] == 0 and r[3] == r[1])}
 
     # ---------------------------------------------------------------- search 1: in process, THROUGH TEXT
     n_rt = 4000 if quick else 60000
